@@ -17,6 +17,7 @@ PW2='0123456789abcdefghijABCDEFGHIJ!#%&()*+,-'
 PW3=$'\xc3\xa9'                 # U+00E9 (Latin-1 range)
 PW4=$'\xe5\xaf\x86\xed\x95\x9c' # U+5BC6 U+D55C (CJK: Han, Hangul; second one has a high octet >= 0x80)
 PW5=$'\xf0\x9d\x84\x9e'         # U+1D11E (needs a UTF-16 surrogate pair)
+if [ "${ONLY_ATTR:-}" != 1 ]; then
 rm -f ossl-*.p12
 for k in rsa1024 rsa2048 p256; do
   for i in 0 1 2 3 4 5; do
@@ -34,4 +35,13 @@ for i in 0 1 3 4; do
   openssl pkcs12 -export -legacy -iter 2 -inkey key-rsa1024.pem -in cert-rsa1024.pem -name "verif-rsa1024" -passout "pass:$pw" -out ossl-rsa1024-D-$i.p12
   openssl pkcs12 -export -legacy -iter 4096 -certpbe PBE-SHA1-RC2-40 -keypbe PBE-SHA1-RC2-40 -inkey key-p256.pem -in cert-p256.pem -name "verif-p256" -passout "pass:$pw" -out ossl-p256-E-$i.p12
 done
+fi
+# F: bag-attribute shapes (password "a"): empty friendlyName, empty / non-empty Microsoft CSP name,
+# non-ASCII name with a code point >= U+8000, no name at all with a CSP name
+rm -f attr-*.p12
+openssl pkcs12 -export -legacy -inkey key-p256.pem -in cert-p256.pem -name "" -passout pass:a -out attr-p256-emptyname.p12
+openssl pkcs12 -export -legacy -inkey key-rsa1024.pem -in cert-rsa1024.pem -name "" -passout pass:a -out attr-rsa1024-emptyname.p12
+openssl pkcs12 -export -legacy -inkey key-p256.pem -in cert-p256.pem -name "n" -CSP "" -passout pass:a -out attr-p256-emptycsp.p12
+openssl pkcs12 -export -legacy -inkey key-rsa1024.pem -in cert-rsa1024.pem -name $'\xc3\xa9\xed\x95\x9c' -CSP "Microsoft Enhanced Cryptographic Provider v1.0" -passout pass:a -out attr-rsa1024-csp.p12
+openssl pkcs12 -export -legacy -inkey key-p256.pem -in cert-p256.pem -CSP "csp only" -passout pass:a -out attr-p256-csponly.p12
 ls -la | wc -l
